@@ -1,13 +1,17 @@
 """C11 - copies and sibling instances share no mutable state."""
+from contracts.c11_copy import CONTRACTS as COPY_CONTRACTS
 from props.containers_bounded import CopyIndependence
 from verif.spec import PropertySpec
 
 PROPERTY = PropertySpec(
-    id='C11', contracts=[], bounded=[CopyIndependence()], level='exploration',
-    explanation='bounded: mutation of either side after each copy route / sibling construction, observed on the other side and on the class',
-    level_text='bounded run-time contract (stand-in): deep observable state compared before/after 14 kinds of mutation on either side, 3 copy routes '
+    id='C11', contracts=list(COPY_CONTRACTS), bounded=[CopyIndependence()], level='other',
+    explanation='Ownership obligations on VectorContainer.copy and BaseLinker.copy executed symbolically from source: the result is a new instance of '
+                'self.__class__; every field (span, index, attribute list, every series - including the elements of object-dtype series such as traces -, '
+                'every attribute, every submodel recursively) is a deep copy, not shared with the original, and equal; __copy__ is copy and __deepcopy__ calls '
+                'copy. Independence of sibling instances and of the class (constructor-level ownership) is decided by the bounded mutation matrix.',
+    level_text='ownership / freshness obligations for the copy routes (all sizes and contents) + bounded mutation matrix for siblings and the class: deep observable state compared before/after 14 kinds of mutation on either side, 3 copy routes '
                'and sibling instances, for containers, parser-built models, linkers and Alias+Tracer models',
     level_note='bound: the mutation catalogue and up to 2 preceding operations',
-    technique='contract-based verification: run-time ownership/independence contract, bounded histories',
+    technique='contract-based deductive verification of ownership/freshness (pyvc provenance tracking + z3); bounded mutation matrix',
     design_ref='DESIGN.md section 10 / C11',
 )
